@@ -75,7 +75,7 @@ ASSUMPTIONS = [
     "excluded by construction, counted (known finding F27): the result of a lazy filter (map select reject selectattr "
     "rejectattr) or an async iterable of the data reaching a consumer that is not async-aware (sort min max reverse batch "
     "last length tojson in *args unpacking 'is iterable' printing string ~)",
-    "excluded, counted (finding F35, sync sum() vs async '+'-loop): sum over values that may be floats or with a non-integer start",
+    "excluded, counted (finding C09-SUM, sync sum() vs async '+'-loop): sum over values that may be floats or with a non-integer start",
     "awaitable attributes / items (wrap=true) are only read by compiled attribute and subscript expressions, coroutine test "
     "functions only by compiled 'is' tests (filters that look attributes up or call tests themselves do not await them)",
     "native environments: generate() is not compared (chunks are not strings)",
@@ -84,10 +84,10 @@ ASSUMPTIONS = [
 CLASSES = ("plain", "sandbox", "immutable", "native")
 ASYNC_FILTERS = ("first", "groupby", "join", "list", "map", "reject", "rejectattr", "select", "selectattr", "slice", "sum", "unique")
 MAX_OUT = 50000
-_ADDR = re.compile(r" at 0x[0-9a-fA-F]{4,}")
+_ADDR = re.compile(r" at 0x[0-9a-f]{4,}", re.I)
 _TAG = re.compile(r"\{[{%](.*?)[}%]\}", re.S)
 _NT = re.compile(r"\w\(|^-?\s*(for|include|import|from|extends|block|call|filter)\b|\|\s*\w|\bis\s+\w")
-SUM_EXCLUSION = True   # finding F35 (async sum differs from the builtin sum): drop when /repo is repaired
+SUM_EXCLUSION = True   # finding C09-SUM (async sum differs from the builtin sum): drop when /repo is repaired
 
 _state = {}
 
@@ -327,7 +327,8 @@ def _close_loop(loop):
 class _Plan:
     """What one family adapter hands to the runner."""
 
-    def __init__(self, templates, entries, makers, globs=None, modules=False, labels=()):
+    def __init__(self, templates, entries, makers, globs=None, modules=False, labels=(), prechecks=()):
+        self.prechecks = list(prechecks)  # templates that must render on the sync side, else the case is Excluded
         self.templates = templates      # {name: source}
         self.entries = entries          # template names to render
         self.makers = makers            # [maker(env, wrapped) -> render data dict]  (fresh values at every call)
@@ -344,6 +345,10 @@ def _run_plan(case, plan):
     labels = set(plan.labels)
     labels.update(("fam_" + case["fam"], "cls_" + cls, "auto" if auto else "noauto", "wrap" if wrap else "nowrap"))
     compared = 0
+    for name in plan.prechecks:
+        for mk in plan.makers:
+            if _observe(senv, name, "render", mk(senv, False), None, native)[0] != "ok":
+                raise core.Excluded()
     loop = asyncio.new_event_loop()
     try:
         for name in plan.entries:
@@ -359,9 +364,15 @@ def _run_plan(case, plan):
                 labels.add("sync_ok" if r[0] == "ok" else "sync_err_" + r[1])
                 if not native:
                     ref["generate"] = _observe(senv, name, "generate", mk(senv, False), None, native)
-                points = [("render", wrap), ("render_async", wrap)]
+                # render() / generate() of an async environment start an event loop of their own (asyncio.run, ~2 ms):
+                # they are observed on the first data of every entry, the *_async entry points on every data
+                points = [("render_async", wrap)]
                 if not native:
-                    points += [("generate", wrap), ("generate_async", wrap)]
+                    points.append(("generate_async", wrap))
+                if di == 0:
+                    points.append(("render", wrap))
+                    if not native:
+                        points.append(("generate", wrap))
                 if wrap:
                     points.append(("render_async", False))
                 if plan.modules:
@@ -948,6 +959,14 @@ def _plan_pipe(case, allow_known=False):
 
     templates = dict(LIBS)
     templates["main"] = pipe_source(p)
+    # finding C09-EAGER: async unique / slice list their input when called, the sync ones when (and as far as) they are
+    # iterated.  Input class = evaluating the input of such a stage raises; decided on the sync side, before judging.
+    prechecks = []
+    for i, (name, _) in enumerate(p["stages"]):
+        if name in ("unique", "slice") and not allow_known:
+            pre = "pre%d" % i
+            templates[pre] = "{% set r = " + _src_src(p["src"]) + "".join(_stage_src(s) for s in p["stages"][:i]) + "|list %}"
+            prechecks.append(pre)
     labels = {"src_" + p["src"][0], "sink_" + p["sink"][0], "emb_" + p.get("emb", "plain")}
     if p["sink"][0] == "for":
         labels.add("for_v%d" % p["sink"][1]["v"])
@@ -959,7 +978,7 @@ def _plan_pipe(case, allow_known=False):
         kind = "lazy" if name in LAZY else "other"
     if kind == "lazy":
         labels.add("lazy_into_" + p["sink"][0])
-    return _Plan(templates, ["main"], [mk], labels=labels)
+    return _Plan(templates, ["main"], [mk], labels=labels, prechecks=prechecks)
 
 
 # ---------------------------------------------------------------------------------------------------------
@@ -1109,8 +1128,8 @@ def _pipe_cases():
                     f = pick(["upper", "lower", "int", "length", "trim", "title", "first", "list", "string", "afilt", "capitalize"])
                     nt = {"int": "int", "length": "int", "list": "list"}.get(f, "str")
                 elif t == "list":
-                    f = pick(["first", "sum", "length", "join", "list", "max", "last", "unique"])
-                    nt = {"join": "str", "list": "list", "unique": "mix"}.get(f, "int")
+                    f = pick(["first", "sum", "length", "join", "list", "max", "last", "sort"])
+                    nt = {"join": "str", "list": "list", "sort": "list"}.get(f, "int")
                 elif t in ("pair", "group"):
                     f = pick(["first", "last", "list", "length", "join"])
                     nt = {"length": "int", "list": "list", "join": "str"}.get(f, "mix")
@@ -1297,9 +1316,10 @@ def _tset_cases(thorough):
 # shards
 
 N_SHARDS = 16
-SIZES = {  # per shard: (pipe, stmt, expr, tset)
-    "quick": (900, 260, 420, 170),
-    "thorough": (13000, 3600, 6000, 2400),
+SIZES = {  # per shard: (pipe, stmt, expr, tset); measured single-process cost per case incl. generation:
+    # pipe ~10 ms, stmt ~37 ms, expr ~18 ms, tset ~26 ms  ->  quick ~560 CPU-s, thorough ~8500 CPU-s
+    "quick": (1250, 220, 440, 250),
+    "thorough": (12000, 3000, 6000, 3500),
 }
 
 
@@ -1347,7 +1367,7 @@ def floors(total, tier):
         if lab.get("for_v%d" % v, 0) < 10:
             msgs.append("for-loop sink variant %d < 10 times" % v)
     if total.excluded < 10:
-        msgs.append("F27 / F35 input class generated (and excluded) fewer than 10 times")
+        msgs.append("F27 / C09-SUM / C09-EAGER input class generated (and excluded) fewer than 10 times")
     if total.discarded > 0.25 * max(total.evaluations, 1):
         msgs.append("discarded %d of %d > 25%%" % (total.discarded, total.evaluations))
     return "; ".join(msgs) or None
